@@ -56,6 +56,12 @@ type EnvAction struct {
 	Do      func()
 	Once    bool
 	used    bool
+	// App marks an action that calls into the library on behalf of the application and may BLOCK there
+	// (a lock, a channel): it runs on a controlled goroutine of its own, started at once (no start gate);
+	// the next settle() waits until it has returned or is blocked, so an action that returns leaves the
+	// schedule exactly as an inline call would, and one that blocks shows up as a live, blocked goroutine
+	// (a stall the driver can report) instead of hanging the driver.
+	App bool
 }
 
 // NewSched returns an active scheduler owned by the calling goroutine (the driver): every
@@ -124,6 +130,23 @@ func (s *Sched) Go(name string, f func()) {
 		s.mu.Unlock()
 		ch <- id
 		s.Gate("start")
+		defer func() { s.done <- id }()
+		f()
+	}()
+	<-ch
+}
+
+// spawn runs f on a controlled goroutine that starts at once (see EnvAction.App).
+func (s *Sched) spawn(name string, f func()) {
+	ch := make(chan int)
+	go func() {
+		id := goid()
+		s.mu.Lock()
+		s.names[id] = name
+		s.byName[name] = id
+		s.live[id] = true
+		s.mu.Unlock()
+		ch <- id
 		defer func() { s.done <- id }()
 		f()
 	}()
@@ -310,6 +333,10 @@ func (s *Sched) Take(o Option) {
 	}
 	if o.env != nil {
 		o.env.used = true
+		if o.env.App {
+			s.spawn("app:"+o.env.Name, o.env.Do)
+			return
+		}
 		o.env.Do()
 		return
 	}
